@@ -31,7 +31,7 @@ ASSUMPTIONS = [
 CASES = {"quick": 960, "thorough": 40000}
 MIN_CASES = {"quick": 240, "thorough": 10000}
 REQUIRED_COUNTERS = ["pairs_compared", "parent_pristine_checked", "fresh_interpreter_crosschecks", "probe:netlist", "probe:die", "probe:die_refine", "probe:alloc", "probe:stog",
-                     "probe:pb", "probe:legal", "probe:strop", "near_threshold_probes", "history_ops_executed", "history_scale_extreme_low", "history_scale_extreme_high"]
+                     "probe:pb", "probe:legal", "probe:strop", "near_threshold_probes", "history_ops_executed", "history_scale_extreme_low", "history_scale_extreme_high", "history_near_copies_of_the_probe"]
 SOFT_DEADLINE = {"quick": 240, "thorough": 3300}
 KINDS = ["netlist", "die", "die_refine", "alloc", "stog", "pb", "strop", "legal"]
 
@@ -123,6 +123,56 @@ def gen_op(rng, kind, near=False):
     return {"k": "legal", "case": case}
 
 
+def near_copy(rng, probe):
+    """a different design that shares most of its shape data with the probe (same rectangle sizes / names / grid, something moved):
+    what a cache keyed too coarsely would confuse with the probe"""
+    import copy
+    op = copy.deepcopy(probe)
+    k = op["k"]
+    try:
+        if k == "stog" and len(op["rects"]) >= 2:
+            j = rng.randrange(1, len(op["rects"]))
+            s = max(max(r[2], r[3]) for r in op["rects"])
+            op["rects"][j][0] += rng.choice([2, 3]) * s            # a branch torn off: same sizes, no longer an orthogon
+        elif k == "netlist":
+            for m in op["doc"]["Modules"].values():
+                rs = m.get("rectangles")
+                if rs and not isinstance(rs[0], (int, float)) and len(rs) >= 2:
+                    s = max(max(r[2], r[3]) for r in rs)
+                    rs[-1][1] += 3 * s
+                if "center" in m:
+                    m["center"] = [m["center"][1], m["center"][0]]
+        elif k in ("die", "die_refine"):
+            for r in op["die"]["regions"]:
+                r[0], r[1] = r[1], r[0]                               # regions mirrored on the diagonal (often invalid: a rejected design in the history)
+            op["die"]["W"], op["die"]["H"] = op["die"]["H"], op["die"]["W"]
+            for r in op["die"]["regions"]:
+                r[2], r[3] = r[3], r[2]
+            op["die"]["fixed"] = {}
+        elif k == "alloc":
+            for c in op["alloc"]["cells"]:
+                c["a"] = {m: round(rng.random(), 2) for m in c["a"]}
+                c["d"] = rng.choice([0, 1, 2])
+        elif k == "strop":
+            rows = [list(r) for r in op["grid"].split()]
+            r_, c_ = rng.randrange(len(rows)), rng.randrange(len(rows[0]))
+            rows[r_][c_] = "0" if rows[r_][c_] == "1" else "1"
+            op["grid"] = " ".join("".join(r) for r in rows)
+        elif k == "pb":
+            for c in op["cons"]:
+                if c["k"] == "pb":
+                    c["bound"] += rng.choice([-2, -1, 1, 2])
+                    c["decomp"] = not c["decomp"]
+        elif k == "legal":
+            op["case"]["limit"] = rng.choice([1.5, 2, 3])
+            for m in op["case"]["mods"]:
+                if m["kind"] == "soft" and len(m["rects"]) > 1:
+                    m["rects"] = m["rects"][:-1]
+    except Exception:  # noqa
+        return None
+    return op
+
+
 def generate(rng, tier, i):
     kind = KINDS[i % len(KINDS)] if (i % 40) != 39 else "legal"
     if kind == "legal" and (i % 40) != 39 and rng.random() < 0.7:
@@ -145,6 +195,12 @@ def generate(rng, tier, i):
         elif hk == "legal" and hdim and not (1e-3 <= hdim / pdim <= 1e3):
             continue
         hist.append(hop)
+    if rng.random() < 0.5:
+        for _ in range(rng.randint(1, 2)):
+            nc = near_copy(rng, probe)
+            if nc is not None:
+                nc["_near_copy"] = True
+                hist.insert(rng.randint(0, len(hist)), nc)
     if kind == "legal":
         # the carriers of legaliser state (process-wide slack, variable registries, default arguments) only matter if a model was built before
         for _ in range(rng.randint(1, 2)):
@@ -276,6 +332,8 @@ def check(case, ctx):
         ctx.count("near_threshold_probes")
     ctx.nontrivial(len(history) >= 3)
     for h in history:
+        if h.get("_near_copy"):
+            ctx.count("history_near_copies_of_the_probe")
         rs = h.get("_rel_scale")
         if rs is not None and rs < 2e-3:
             ctx.count("history_scale_extreme_low")
